@@ -3,6 +3,7 @@
 //! or records executions of the real code as ndjson traces for TLC to validate.
 mod fsm;
 mod layout;
+mod seqdrv;
 mod util;
 
 fn main() {
@@ -14,6 +15,8 @@ fn main() {
     let rest = &args[2..];
     let code = match args[1].as_str() {
         "freespace" => fsm::main(rest),
+        "seq" => seqdrv::main(rest),
+        "clocksat" => seqdrv::clocksat(rest),
         "layout-selftest" => layout::selftest(rest.first().map(|s| s.as_str()).unwrap_or("/dev/shm/fxv-layout")),
         "version" => {
             println!("fxv record_overhead={}", feoxdb::FeoxStore::verif_record_overhead());
